@@ -1,14 +1,25 @@
 """basin_graph<FG>::compute_tree_boruvka (flow/basin_graph.hpp:460-702) and its helpers check_capacity / increase_perf_boruvka.
-Properties C15 (Boruvka tree), C08 (memory safety of the set-up phase), C09 (the degree lists are not cleared at entry).
+Properties C15 (Boruvka tree), C08 (memory safety of the set-up phase and of the main-loop steps); notes for C09 (the degree lists are
+not cleared at entry) in C09_NOTES / C09_RELEVANT_GROUPS (not registered).
 
 1. SET-UP PHASE (everything before `while (m_low_degrees.size())`), UNBOUNDED.  The text of the function is cut at fixed
    statements into six consecutive slices P0..P5; every slice is extracted from /repo on each run and is proved against its own
-   contract {S(k-1)} Pk {S(k)} (sequencing rule: the postcondition text of one slice is the precondition text of the next; the
-   module checks that textually at import).  Each loop body is outlined as its own unit; loops are closed by loop contracts over
-   ghost indices (ghost basin GBV, ghost edge GE, ghost list slot GSL).  Counting statements ("size = number of incident edges",
-   "begin = prefix sum") are stated against harness-owned ghost witness tables defined by their recurrences.
-2. BOUNDED end-to-end group: the whole extracted function against the extracted Kruskal on all basin graphs within a stated bound.
-3. Local unbounded step lemmas of the main loop.
+   contract {S(k-1)} Pk {S(k)} (sequencing rule: the state clauses one slice requires are clauses an earlier slice ensures and no slice in
+   between assigns an object they mention; checked textually at import by _check_sequencing).  Each loop body is outlined as its own unit;
+   loops are closed by loop contracts over ghost indices (ghost basin GBV, ghost edge GE, ghost list slot GSL, ghost list slots GLS..).
+   Counting statements ("size = number of incident edges", "begin = prefix sum") are stated against harness-owned ghost witness
+   tables defined by their recurrences (DESIGN 3.5).
+       P0  resets of m_adjacency / m_edge_bucket, copy of the edge end points into m_link_basins      (lines 463-482)
+       P1  first pass on edges: degrees                                                                 (485-489)
+       P2  adjacency pointers = prefix sums, sizes reset, m_adjacency_list resized                      (492-500)
+       P3  next pointers                                                                                (502-503)
+       P4  second pass on edges: every edge id into the rows of both end points                         (506-517)
+       P5  degree lists, perf counter, tree reset                                                       (519-534)
+2. LOCAL STEP LEMMAS OF THE MAIN LOOP, UNBOUNDED, each its own group (boruvka.main.*): scan step, selection + append, rename step,
+   collapse, re-queueing after the clean-up.  They assume the row invariant at the slot read; the main loop as a whole is NOT proved.
+3. BOUNDED end-to-end groups (boruvka.bounded.*): the whole extracted function against an oracle written from the property and against the
+   extracted compute_tree_kruskal, on ALL basin graphs within the stated bound; never counted as proof.
+Native driver: replay/boruvka.cpp (real headers; random graphs incl. degree > 16, reused objects; BORUVKA_MODE=extreme|stale|dense witnesses).
 """
 import os
 import re
@@ -891,9 +902,15 @@ G_BOUNDED_QUICK = bounded_group(3, 2, MAXLOW, "quick", "boruvka.bounded.b3e2", 1
 G_BOUNDED = bounded_group(3, 3, MAXLOW, "thorough", "boruvka.bounded.b3e3", 3000, 1, 0, _DEAD)
 G_BOUNDED_W64 = bounded_group(3, 2, MAXLOW, "thorough", "boruvka.bounded.b3e2.size_t", 1800, 1, 0, _DEAD, idx_t="size_t")
 G_EXTREME = bounded_group(2, 1, MAXLOW, "quick", "boruvka.bounded.extreme_weights", 600, 1, 0,
-                          "; EXPECTED TO FAIL on the unchanged tree: candidate finding `pass elevation DBL_MAX / +inf is never selected by Boruvka`",
+                          "; regression group of finding F13 (fixed in /repo, 8136f75): an edge with pass elevation DBL_MAX / +inf was never selected by Boruvka",
                           below_max=False, idx_t="size_t")
-BOUNDED_GROUPS = [G_BOUNDED_QUICK, G_BOUNDED, G_BOUNDED_W64, G_EXTREME]
+# the deferral / bucket clean-up path under a HYPOTHETICAL threshold: the member m_max_low_degree (never written by the library, in-class value 16) set to 2, so
+# that rows grown by a collapse exceed it within the bound.  Every graph on <= 3 basins keeps a basin with <= 2 distinct neighbours, so the precondition
+# `some live basin has low degree` of the algorithm holds.  Measured 1486 s (25133 obligations).
+G_BOUNDED_MAXLOW2 = bounded_group(3, 3, 2, "thorough", "boruvka.bounded.b3e3.maxlow2", 5400, 3, 3,
+                                  "; m_max_low_degree = 2 instead of its in-class value %d (hypothetical configuration): exercises the large-degree deferral, the bucket "
+                                  "clean-up with duplicate / self-loop removal and the re-queueing, which are dead code under the real threshold within any feasible bound" % MAXLOW)
+BOUNDED_GROUPS = [G_BOUNDED_QUICK, G_BOUNDED, G_BOUNDED_W64, G_BOUNDED_MAXLOW2, G_EXTREME]
 
 # =========================================================================== local step lemmas of the main loop (UNBOUNDED, each its own group)
 def _init_idx_check():
@@ -916,7 +933,7 @@ double found_edge_weight;
  * node that is still alive (size > 0), together with its weight */
 #define SEL(nid) (found_edge == SIZE_MAX || (found_edge < m_edges_n && node_B_id < nbasins_ && node_B_id != (nid) && ADJ(node_B_id).size > 0 \
     && ((LB(found_edge, 0) == (nid) && LB(found_edge, 1) == node_B_id) || (LB(found_edge, 0) == node_B_id && LB(found_edge, 1) == (nid))) \
-    && found_edge_weight == W(found_edge)))
+    && (found_edge_weight == W(found_edge) || (isnan(found_edge_weight) && isnan(W(found_edge))))))
 /* representation invariant of the adjacency rows DURING the main loop, instance at the slot about to be read: the slot is inside the list, holds an
  * edge id, the edge's current end points are basin ids and one of them is the owner of the row */
 #define ROW_SLOT_OK(nid) (adjacency_data_ptr < m_adjacency_list_n && LST(adjacency_data_ptr).link_id < m_edges_n \
@@ -936,15 +953,19 @@ RENAME_INNER = r"for \(size_t step = 0; step < m_adjacency\[nid\]\.size; \+\+ste
 bv_scan_step = Unit(
     name="bv_scan_step", file=BG_H, anchor=ANCHOR, inner=SCAN_INNER,
     sig="void bv_scan_step(size_t nbasins_, %s, size_t nid)" % params(ML_PTRS, const=ML_PTRS),
-    pre=ML_PRE, rules=BV_VOCAB,
+    pre=ML_PRE, rules=BV_VOCAB, body_prefix=_init_idx_check(),
     contract=SH_ML + r"""
 __CPROVER_requires(ROW_SLOT_OK(nid))
 __CPROVER_requires(SEL(nid))
 __CPROVER_assigns(found_edge, node_B_id, found_edge_weight, adjacency_data_ptr, m_perf_boruvka)
 /* C15 step lemma: whatever is selected is an edge between the processed node and a different, still existing node */
 __CPROVER_ensures(SEL(nid))
-/* the selected weight never increases, and is not above the weight of the edge just parsed when that edge is valid (leads to a different live node) */
-__CPROVER_ensures(!(__CPROVER_old(found_edge_weight) < found_edge_weight))
+/* once an edge is selected the selected weight never increases, and it is not above the weight of the edge just parsed when that edge is valid
+ * (leads to a different live node) */
+__CPROVER_ensures(__CPROVER_old(found_edge) != SIZE_MAX ==> !(__CPROVER_old(found_edge_weight) < found_edge_weight))
+/* a valid edge is always selected when nothing was selected before, whatever its weight (finite maximum and +inf included) */
+__CPROVER_ensures((__CPROVER_old(found_edge) == SIZE_MAX && OPP(__CPROVER_old(LST(adjacency_data_ptr).link_id), nid) != nid
+                   && ADJ(OPP(__CPROVER_old(LST(adjacency_data_ptr).link_id), nid)).size > 0) ==> found_edge == __CPROVER_old(LST(adjacency_data_ptr).link_id))
 __CPROVER_ensures((OPP(__CPROVER_old(LST(adjacency_data_ptr).link_id), nid) != nid && ADJ(OPP(__CPROVER_old(LST(adjacency_data_ptr).link_id), nid)).size > 0)
                   ==> !(W(__CPROVER_old(LST(adjacency_data_ptr).link_id)) < found_edge_weight))
 /* the scan moves along the next pointers */
@@ -1090,7 +1111,9 @@ MAIN_GROUPS += [G_COLLAPSE, G_REQUEUE]
 GROUPS = {"C15": SETUP_GROUPS + MAIN_GROUPS + BOUNDED_GROUPS,
           # memory safety: every index of the set-up phase is in range for ALL inputs (unbounded slices); the main-loop lemmas are index-safe under the
           # stated row-invariant instances
-          "C08": SETUP_GROUPS + MAIN_GROUPS}
+          "C08": SETUP_GROUPS + MAIN_GROUPS,
+          # history independence: the resets of the set-up phase hold on ARBITRARY pre-state of every scratch member; the degree lists are not cleared (see PROPS)
+          "C09": [G_P0, G_P5, G_REQUEUE, G_BOUNDED_QUICK]}
 
 _BV_ASSUMPTIONS = [
     "compute_tree_boruvka set-up phase: the function text is cut at six fixed statements into consecutive slices P0..P5, each extracted from /repo on every run and "
@@ -1140,10 +1163,7 @@ PROPS = {
             "the large-degree path (`size > m_max_low_degree` = 16: deferral, bucket clean-up, duplicate-edge removal with the min-id tie-break) needs a basin with >= 17 incident edge "
             "end points: OUTSIDE every bound CBMC can unwind here; it is dead code in all bounded groups run with the in-class threshold; only the re-queue decision at its end is "
             "under contract (boruvka.main.requeue); the native driver replay/boruvka.cpp exercises it (about a third of its random graphs) but that is testing, not proof",
-            "CANDIDATE FINDING (fails on the unchanged tree, group boruvka.bounded.extreme_weights, reproduced natively incl. through the public API): an edge whose pass elevation is "
-            "DBL_MAX (a finite double) or +inf is never selected because the scan starts from found_edge_weight = numeric_limits::max() and tests `<`; Boruvka then returns an "
-            "incomplete tree where Kruskal returns a spanning one",
-            "CANDIDATE FINDING (native only, replay/boruvka.cpp BORUVKA_MODE=stale / dense): when every basin of a component keeps more than m_max_low_degree distinct live neighbours "
+            "NOTED, NOT CLAIMED (native only, replay/boruvka.cpp BORUVKA_MODE=stale / dense; outside the documented domain of planar basin graphs): when every basin of a component keeps more than m_max_low_degree distinct live neighbours "
             "(e.g. complete graph on 18 basins) m_low_degrees is empty, the main loop stops, the tree is incomplete and m_large_degrees keeps stale entries that the next call uses as "
             "basin ids; not reachable from planar / raster basin graphs (they always have a basin of degree <= 16), reachable with a non-planar triangle list",
         ],
@@ -1157,7 +1177,6 @@ PROPS = {
                    "basins_count() == 0: m_adjacency[0].begin = 0 and m_adjacency.back() are out of range, m_tree.reserve(nbasins - 1) asks for SIZE_MAX elements -- outside the stated precondition"],
     ),
 }
-# not registered (the task asks for C15 / C08 only): what this module contributes to C09, for whoever integrates it
 C09_NOTES = {
     "C09": dict(
         level="other",
@@ -1168,3 +1187,4 @@ C09_NOTES = {
     ),
 }
 C09_RELEVANT_GROUPS = [G_P0, G_P5, G_REQUEUE, G_BOUNDED_QUICK, G_BOUNDED]
+PROPS["C09"] = C09_NOTES["C09"]
